@@ -324,7 +324,10 @@ def task_layout(task, rec, out):
                 for (kind, text) in geom.power_problems(sess.circ, build.get("poles"))[:8]:
                     fs.append({"key": f"{key}:{kind}", "what": text, "kind": kind, "closed": True})
             fs += engine.check_places(sess, rec, key)
-            if task.get("K"):
+            fs += engine.check_props(sess, rec, key)
+            if not task.get("ref_check", True):
+                pass
+            elif task.get("K"):
                 f2, _S = engine.check_history(sess, rec, key, task["K"])
                 fs += f2
             else:
